@@ -224,4 +224,129 @@ class RuleEval(Harness):
         return cl
 
 
-HARNESSES = [RuleEval()]
+class _Stub(rp.Conditions):
+    """a child condition whose result is arbitrary: truth value and reported profile per (gene, local flag) come from a table of
+    symbolic booleans; the only thing assumed of a child is that its result is a function of the gene and the flag"""
+    def __init__(self, idx, table):
+        super().__init__(False)
+        self.idx, self.table = idx, table
+
+    def is_satisfied(self, details, local_only=False):
+        met, match = self.table[(details.cds, True if local_only else False)]
+        return rp.ConditionMet(True if met else False, {"p%d" % self.idx} if match else set())
+
+    @property
+    def profiles(self):
+        return {"p%d" % self.idx}
+
+    def __str__(self):
+        return "stub%d" % self.idx
+
+
+class Combinators(Harness):
+    """the inductive step for trees of any depth: each combinator of the rule language computes the documented function of its
+    children's results, for arbitrary children (rule_eval checks the leaves and whole trees on the same geometry)"""
+    pid, name = "C01", "combinators"
+    functions = [RP + "Conditions.is_satisfied", RP + "Conditions.are_subconditions_satisfied", RP + "Conditions.get_satisfied",
+                 RP + "AndCondition.is_satisfied", RP + "CDSCondition.is_satisfied", RP + "Details.in_range", RP + "Details.just_cds",
+                 RP + "ConditionMet"]
+    bound = ("one combinator node (group / not-group over 1-3 operands joined by or; and-chain of 2-3 operands; cds(...) and not cds(...) "
+             "around one operand, an or-list or an and-chain) whose 1-3 children are stubs with arbitrary results: truth value and "
+             "reported profile per (gene, local flag) are symbolic booleans; 3 genes with symbolic coordinates, cutoff and record "
+             "length, linear and circular; evaluated at gene 0 in normal mode and (for groups and and-chains) in the local mode "
+             "used inside cds(...)")
+    outside = ("more than 3 operands per node (the loops over operands are uniform); that a child's result depends only on the gene "
+               "and the local flag (true by inspection: Details is never modified, hit counters are not read)")
+    stubs = RuleEval.stubs + ["children are stub conditions returning arbitrary (symbolic) results"]
+    task_paths = 200
+
+    def variants(self, tier):
+        out = []
+        for neg in (False, True):
+            for k in (1, 2, 3):
+                for local in (False, True):
+                    out.append({"node": "group", "neg": neg, "k": k, "local": local, "circ": False})
+            for inner, k in (("one", 1), ("or", 2), ("and", 2)) + ((("or", 3), ("and", 3)) if tier == "thorough" else ()):
+                for circ in (False, True):
+                    if tier == "quick" and (inner, circ) in (("or", True), ("and", False)):
+                        continue
+                    out.append({"node": "cds", "neg": neg, "k": k, "inner": inner, "local": False, "circ": circ})
+        for k in (2, 3):
+            for local in (False, True):
+                out.append({"node": "and", "neg": False, "k": k, "local": local, "circ": False})
+        return out
+
+    def vars(self, var):
+        d = {"n": "int", "cutoff": "int"}
+        for g in range(3):
+            d.update(shape_vars("g%d" % g, "s"))
+        for i in range(var["k"]):
+            for g in range(3):
+                for m in (0, 1):
+                    d["met_%d_%d_%d" % (i, g, m)] = "bool"
+                    d["mat_%d_%d_%d" % (i, g, m)] = "bool"
+        return d
+
+    def pre(self, var, v):
+        return L.And([shape_pre("g%d" % g, "s", v, v["n"]) for g in range(3)], v["cutoff"] >= 1)
+
+    def build_node(self, var, v):
+        OR, AND = rp.TokenTypes.OR, rp.TokenTypes.AND
+        stubs = []
+        for i in range(var["k"]):
+            table = {("g%d" % g, bool(m)): (v["met_%d_%d_%d" % (i, g, m)], v["mat_%d_%d_%d" % (i, g, m)]) for g in range(3) for m in (0, 1)}
+            stubs.append(_Stub(i, table))
+
+        def joined(items, op):
+            seq = []
+            for item in items:
+                seq += [item, op]
+            return seq[:-1]
+        if var["node"] == "group":
+            return rp.Conditions(var["neg"], joined(stubs, OR))
+        if var["node"] == "and":
+            return rp.AndCondition(joined(stubs, AND))
+        if var["inner"] == "and":
+            return rp.CDSCondition(var["neg"], [rp.AndCondition(joined(stubs, AND))])
+        return rp.CDSCondition(var["neg"], joined(stubs, OR))
+
+    def run(self, var, v):
+        node = self.build_node(var, v)
+        feats = {"g%d" % g: DummyCDS(location=build("g%d" % g, "s", v), locus_tag="g%d" % g, translation="A") for g in range(3)}
+        details = rp.Details("g0", feats, {}, v["cutoff"], circular_origin=v["n"] if var["circ"] else 0)
+        res = node.get_satisfied(details, var["local"])
+        return {"met": True if res.met else False, "matches": sorted(res.matches)}
+
+    def post(self, var, v, out):
+        if is_raised(out):
+            return [("no_raise", False)]
+        k, neg = var["k"], var["neg"]
+        m = 1 if var["local"] else 0
+
+        def met(i, g, mode):
+            return v["met_%d_%d_%d" % (i, g, mode)]
+
+        def mat(i, g, mode):
+            return v["mat_%d_%d_%d" % (i, g, mode)]
+        if var["node"] in ("group", "and"):
+            inner = (L.And if var["node"] == "and" else L.Or)([met(i, 0, m) for i in range(k)])
+            want = L.Not(inner) if neg else inner
+            reasons = [mat(i, 0, m) for i in range(k)]
+        else:
+            n = v["n"]
+            genes = [model_parts("g%d" % g, "s", v) for g in range(3)]
+            near = {j: ring_distance_spec(genes[0], genes[j], n if var["circ"] else None) < v["cutoff"] for j in (1, 2)}
+            comb = L.And if var["inner"] == "and" else L.Or
+
+            def alone(g):
+                return comb([met(i, g, 1) for i in range(k)])
+            somewhere = L.Or(alone(0), [L.And(near[j], alone(j)) for j in (1, 2)])
+            want = L.Not(somewhere) if neg else somewhere
+            reasons = [L.And(alone(0), mat(i, 0, 1)) for i in range(k)]
+        cl = [("node_is_the_documented_function_of_its_children", L.Iff(out["met"], want))]
+        for i in range(k):
+            cl.append(("reasons_are_the_childrens_reasons", L.Iff(("p%d" % i) in out["matches"], reasons[i])))
+        return cl
+
+
+HARNESSES = [RuleEval(), Combinators()]
